@@ -200,10 +200,15 @@ impl Storage {
                 tx.send((wal_file, wal_segment, wal_data.len() as u64)).unwrap();
             });
         }
+        // Only the loader jobs hold senders now: if one of them fails, the channel closes
+        // instead of leaving recovery waiting for a segment that will never arrive.
+        drop(tx);
 
         let mut wal_size = 0;
         let mut wal_segments = Vec::new();
+        let mut loaded_wal_files = 0;
         for (path, wal_segment, size) in rx.iter().take(num_wal_files) {
+            loaded_wal_files += 1;
                 if wal_segment.id < earliest_uncommited_wal_id {
                     if readonly {
                         log::info!("Skipping wal segment {}", path.display());
@@ -218,6 +223,13 @@ impl Storage {
                 }
         }
         wal_segments.sort_by_key(|s| s.id);
+        assert_eq!(
+            loaded_wal_files, num_wal_files,
+            "Failed to load {} of {} wal segments (corrupted files in {})",
+            num_wal_files - loaded_wal_files,
+            num_wal_files,
+            wal_dir.display(),
+        );
 
         (meta_store, wal_segments, wal_size)
     }
